@@ -31,7 +31,7 @@ REQUIRED = {"discipline.only_parser_error": {"quick": 40000, "thorough": 3000000
             "fault.reported_at_injected_line": {"quick": 1500, "thorough": 100000},
             "mutation.only_parser_error": {"quick": 8000, "thorough": 500000},
             "reuse.parse_after_failure_same_as_fresh": {"quick": 200, "thorough": 15000}}
-REQUIRED_SEEN = {"fault_kind": ["second_feature", "text_after_steps", "examples_outside_outline", "and_without_predecessor",
+REQUIRED_SEEN = {"free_text_shape": ["keyword_lookalike_without_colon"], "fault_kind": ["second_feature", "text_after_steps", "examples_outside_outline", "and_without_predecessor",
                                 "but_without_predecessor", "ragged_table_row", "malformed_tag", "second_background",
                                 "docstring_before_step", "table_before_step", "background_after_scenario", "tags_entry_malformed_tag",
                                 "tags_entry_tag_expected"],
@@ -113,6 +113,18 @@ def where_of(ex):
 
 
 # ---------------------------------------------------------------------------
+def keyword_lookalike(kws, rng):
+    steps_kw = [w.strip().lower() for t in ("given", "when", "then", "and", "but") for w in kws[t] if w.strip() != "*"]
+    for _ in range(10):
+        alias = rng.choice(kws[rng.choice(["feature", "rule", "background", "scenario", "scenario_outline", "examples"])])
+        text = alias + rng.choice(["s", ".", "2", "x", " x", "e", "n"])
+        low = text.lower()
+        if ":" in text or any(low.startswith(k) for k in steps_kw) or text[0] in "@#|*\"'":
+            continue
+        return text
+    return None
+
+
 def line_pool(kws, rng):
     pool = []
     for kind in ("feature", "rule", "background", "scenario", "scenario_outline", "examples"):
@@ -290,6 +302,13 @@ def fault_injection(mon, P, rng, ndocs, i18n):
                                 yield max(v for kk, v in lines.items() if kk[:len(ek)] == ek) + 1
         for ln in sorted(set(after_steps(a, ()))):
             injections.append(("second_feature", ln, "%s: again" % kws["feature"][rng.randrange(len(kws["feature"]))], ln))
+            if rng.random() < 0.6:
+                # free text that merely LOOKS like a structural keyword (no colon; an alias with a plural s, a full stop, a
+                # digit ...) is still free text where only steps / tables / the next statement may follow
+                lk = keyword_lookalike(kws, rng)
+                if lk:
+                    injections.append(("text_after_steps", ln, "    " + lk, ln))
+                    mon.seen("free_text_shape", "keyword_lookalike_without_colon")
         # doc-string / table before any step: through parse_steps (in a feature such a line would be description)
         some_steps = gen.steps(rng.randint(1, 3), False)
         stext, _ = render_fragment("steps", some_steps)
